@@ -195,8 +195,9 @@ func c02Config(tp *simkit.Tape) c02Cfg {
 		}
 	} else if c.Persistent && c.Producers >= 2 && tp.Chance(1, 2) {
 		// several producers: only the Offer transaction fails (a read fault needs the one-producer admission order)
-		if c.Block && tp.Chance(1, 2) {
-			// a full disk: a window of consecutive writes fails, with more producers than the queue has room for
+		if tp.Chance(2, 3) {
+			// a full disk: a window of consecutive writes fails, with more (blocking) producers than the queue has room for
+			c.Block = true
 			c.Producers += tp.Range(1, 3)
 			if tp.Chance(2, 3) {
 				c.Cap = int64(tp.Range(1, 2))
